@@ -32,7 +32,7 @@ HERE = os.path.dirname(os.path.dirname(os.path.abspath(__file__)))
 with open(os.path.join(HERE, 'data', 'filing_rules.json')) as _f:
     RULES = json.load(_f)
 
-META = ['(', ')', '\\', '((', '))', ')(', '\\(', '\\)', '\\\\', '"', "'", '%', '<<', '>>', '/V', '>> << /T (x) /V (y']
+META = ['(', ')', '\\', ' #12', ' ;b', '((', '))', ')(', '\\(', '\\)', '\\\\', '"', "'", '%', '<<', '>>', '/V', '>> << /T (x) /V (y']
 WORDS = ['Smith', 'Jr', 'Ann-Marie', 'O', 'Neil', '12', 'Main St', 'Apt', 'Acme', 'LLC', 'a', 'x']
 
 
